@@ -11,6 +11,7 @@ CONSTANTS
   SimPm = 750
   AsymThrPm = 2000
   Age = 2
+  AgeIsMax = FALSE
   MinObs = 1
   MaxT = 2
   MaxOps = 4
